@@ -86,6 +86,7 @@ class State(object):
         self.types = {}            # z3 ast id -> python class (static knowledge about instances)
         self.obligations = []
         self.locks = []            # stack of lock objects held (monitor)
+        self.derived = set()       # ids of terms read out of another container / out of a field (aliases, see alias_guard)
         self.written_params = set()
         self.notes = []
         self.tags = {}
@@ -118,6 +119,7 @@ class State(object):
         s.tags = dict(self.tags)
         s.elemtypes = dict(self.elemtypes)
         s.hard = list(self.hard)
+        s.derived = set(self.derived)
         return s
 
     # --- heap -----------------------------------------------------------------------------------
@@ -569,6 +571,7 @@ class Executor(object):
         if mon is not None and hasattr(mon, "on_read"):
             mon.on_read(self, st, v, attr)
         val = st.read(Val.ref(v), attr)
+        st.derived.add(val.get_id())
         info = self.env.fields.lookup(pycls, attr) or {}
         ftype = info.get("type")
         if ftype is not None:
@@ -603,6 +606,7 @@ class Executor(object):
         from . import jsonish
         if z3.is_expr(container) and z3.is_expr(comp):
             st.pc.append(jsonish.component(container, comp))
+            st.derived.add(comp.get_id())
 
     def concrete(self, v):
         sv = z3.simplify(v)
@@ -1142,6 +1146,7 @@ class Executor(object):
         return out
 
     def st_AugAssign(self, st, stmt):
+        self.alias_guard(st, stmt.target, only_if_container=True)
         load = ast.copy_location(ast.BinOp(left=self.as_load(stmt.target), op=stmt.op, right=stmt.value), stmt)
         return self.from_expr(self.eval(st, load), lambda s, v: self.assign(s, stmt.target, v))
 
@@ -1169,12 +1174,34 @@ class Executor(object):
             if isinstance(tgt.slice, ast.Slice):
                 raise Unsupported("slice assignment")
 
+            self.alias_guard(st, tgt.value)
+
             def go(s, vals):
                 cont, k = self.lift(vals[0]), self.lift(vals[1])
                 return self.from_expr(self.container_store(s, cont, k, self.lift(v)),
                                       lambda s2, newc: self.assign(s2, self.as_store(tgt.value), newc))
             return self.from_expr(self.eval_seq(st, [tgt.value, tgt.slice]), go)
         raise Unsupported("assignment target %s" % type(tgt).__name__)
+
+    def alias_guard(self, st, node, only_if_container=False):
+        """Containers are values in the encoding: a mutating operation rebinds the expression it was applied to.  That is
+        exact when the expression is a parameter (frame[param] obligations), an attribute (the field is written) or a local
+        holding a container built in this function.  It is NOT exact when the local is an alias of a component of another
+        container or of a field (x = d["k"]; x.append(1) changes d in Python): such code is outside the accepted subset and
+        the function is reported UNDECIDED instead of being verified with the wrong meaning."""
+        if not isinstance(node, ast.Name):
+            return
+        v = st.locals.get(node.id)
+        if not z3.is_expr(v) or v.get_id() not in st.derived:
+            return
+        if only_if_container and not self.feasible(st, z3.Or(V.is_list(v), V.is_dict(v), V.is_set(v))):
+            return
+        raise Unsupported("in-place mutation of '%s', an alias of a component of another container or of a field "
+                          "(line %s): value semantics cannot carry the change back" % (node.id, getattr(node, "lineno", "?")))
+
+    def mark_derived(self, st, v):
+        if z3.is_expr(v):
+            st.derived.add(v.get_id())
 
     def as_store(self, e):
         return e   # assign() dispatches on node type only
@@ -1268,6 +1295,7 @@ class Executor(object):
 
     def delete(self, st, tgt):
         if isinstance(tgt, ast.Subscript):
+            self.alias_guard(st, tgt.value)
             if isinstance(tgt.slice, ast.Slice):
                 sl = tgt.slice
                 if sl.lower is None and sl.upper is None and sl.step is None:
